@@ -338,3 +338,42 @@ template <class T, size_t N> void op_det_strategies(Ctx &c) {
     c.retb(r, sizeof r);
 }
 } // namespace memsim
+
+namespace memsim {
+// a well conditioned matrix that NEEDS row exchanges: a diagonally dominant matrix with its rows rotated by one
+template <class X> X &own_rot(Ctx &c, int k) {
+    X &x = c.own<X>(k, false);
+    using T = typename X::scalar_type; constexpr size_t n = X::size(); size_t m = 1; while (m * m < n) ++m;
+    for (size_t i = 0; i < m; ++i) x.data()[((i + 1) % m) * m + i] = (T)(16 + (int)(i % 3));
+    return x;
+}
+template <class T, size_t N> void op_piv_expr(Ctx &c) {
+    auto &a = own_rot<Tensor<T, N, N>>(c, 0); auto &l = c.own<Tensor<T, N, N>>(1, true); auto &u = c.own<Tensor<T, N, N>>(2, true);
+    auto &p = c.own<Tensor<size_t, N>>(3, true); auto &P = c.own<Tensor<T, N, N>>(4, true);
+    uint32_t w = c.p1() % 6;
+    c.run([&] {
+        switch (w) {
+        case 0: lu<LUCompType::BlockLUPiv>(a + 0, l, u, p); break;
+        case 1: lu<LUCompType::SimpleLUPiv>(a + 0, l, u, p); break;
+        case 2: lu<LUCompType::BlockLUPiv>(a + 0, l, u, P); break;
+        case 3: lu<LUCompType::SimpleLUPiv>(a, l, u, P); break;
+        case 4: qr<QRCompType::MGSRPiv>(a + 0, l, u, P); break;
+        default: qr<QRCompType::MGSRPiv>(a, l, u, p); break;
+        }
+    });
+}
+template <class T, size_t N> void op_piv_solve_inv(Ctx &c) {
+    auto &a = own_rot<Tensor<T, N, N>>(c, 0); auto &b = c.own<Tensor<T, N>>(1, false); auto &x = c.own<Tensor<T, N>>(2, true); auto &o = c.own<Tensor<T, N, N>>(3, true);
+    uint32_t w = c.p1() % 4;
+    T r = 0;
+    c.run([&] {
+        switch (w) {
+        case 0: x = solve<SolveCompType::SimpleInvPiv>(a, b); break;
+        case 1: x = solve<SolveCompType::BlockLUPiv>(a + 0, b); break;
+        case 2: o = inverse<InvCompType::SimpleInvPiv>(a + 0); break;
+        default: o = inverse<InvCompType::BlockLUPiv>(a); r = determinant<DetCompType::LU>(a + 0); break;
+        }
+    });
+    c.retv(r);
+}
+} // namespace memsim
